@@ -162,6 +162,33 @@ int vnacal_new_set_m_error(vnacal_new_t *vnp,
     }
 
     /*
+     * If we'll need cubic spline interpolation, calculate the spline
+     * coefficients now, before touching the measurement error vector,
+     * so that an allocation failure leaves the previous setting (or
+     * none) in force.
+     */
+    const bool use_spline = frequencies != 1 && frequency_vector != NULL;
+    double nf_c_vector[use_spline ? frequencies - 1 : 1][3];
+    double tr_c_vector[use_spline && sigma_tr_vector != NULL ?
+	frequencies - 1 : 1][3];
+
+    if (use_spline) {
+	if (_vnacommon_spline_calc(frequencies - 1, frequency_vector,
+		    sigma_nf_vector, nf_c_vector) == -1) {
+	    _vnacal_error(vcp, VNAERR_SYSTEM, "malloc: %s",
+		    strerror(errno));
+	    return -1;
+	}
+	if (sigma_tr_vector != NULL &&
+		_vnacommon_spline_calc(frequencies - 1, frequency_vector,
+		    sigma_tr_vector, tr_c_vector) == -1) {
+	    _vnacal_error(vcp, VNAERR_SYSTEM, "malloc: %s",
+		    strerror(errno));
+	    return -1;
+	}
+    }
+
+    /*
      * Allocate the vector if needed.
      */
     if (m_error_vector == NULL) {
@@ -220,31 +247,17 @@ int vnacal_new_set_m_error(vnacal_new_t *vnp,
      * given.
      */
     } else {
-	double c_vector[frequencies - 1][3];
-
-	if (_vnacommon_spline_calc(frequencies - 1, frequency_vector,
-		    sigma_nf_vector, c_vector) == -1) {
-	    _vnacal_error(vcp, VNAERR_SYSTEM, "malloc: %s",
-		    strerror(errno));
-	    return -1;
-	}
 	for (int findex = 0; findex < vnp->vn_frequencies; ++findex) {
 	    vnp->vn_m_error_vector[findex].vnme_sigma_nf =
 		_vnacommon_spline_eval(frequencies - 1, frequency_vector,
-			sigma_nf_vector, c_vector,
+			sigma_nf_vector, nf_c_vector,
 			vnp->vn_frequency_vector[findex]);
 	}
 	if (sigma_tr_vector != NULL) {
-	    if (_vnacommon_spline_calc(frequencies - 1, frequency_vector,
-			sigma_tr_vector, c_vector) == -1) {
-		_vnacal_error(vcp, VNAERR_SYSTEM, "malloc: %s",
-			strerror(errno));
-		return -1;
-	    }
 	    for (int findex = 0; findex < vnp->vn_frequencies; ++findex) {
 		vnp->vn_m_error_vector[findex].vnme_sigma_tr =
 		    _vnacommon_spline_eval(frequencies - 1, frequency_vector,
-			    sigma_tr_vector, c_vector,
+			    sigma_tr_vector, tr_c_vector,
 			    vnp->vn_frequency_vector[findex]);
 	    }
 	}
